@@ -78,3 +78,97 @@ def ttm_transposed(prog: Program, res: Result, short: str, rule: str = "TTM-T") 
                         "the factor is applied un-transposed: the core is not the data projected onto the factor's column space "
                         "(dimension error or wrong result for non-square factors)")
     return n
+
+
+# ---------------------------------------------------------------------- views of the Kruskal fields under other names
+def dealias_factors(fn: ast.FunctionDef) -> ast.FunctionDef:
+    """A copy of a ktensor method in which the factor matrices and weights are always spelled `self.factor_matrices[..]` / `self.weights`:
+
+        first = self.factor_matrices[0]; first[:, idx] = -first[:, idx]      ->  self.factor_matrices[0][:, idx] = -self.factor_matrices[0][:, idx]
+        column = self.factor_matrices[m][:, r]                               ->  uses of `column` read self.factor_matrices[m][:, r]
+        for f in self.factor_matrices: BODY(f)                               ->  for _m in range(self.ndims): BODY(self.factor_matrices[_m])
+        for i, f in enumerate(self.factor_matrices): BODY(i, f)              ->  for i in range(self.ndims): BODY(i, self.factor_matrices[i])
+
+    Only single-assignment locals whose value is a pure view expression (subscripts / attributes of self.factor_matrices or self.weights)
+    are replaced; the rewriting changes no behaviour, it removes naming differences before the scale algebra and the pattern rules look."""
+    import copy
+    fn = copy.deepcopy(fn)
+    self_name = fn.args.args[0].arg if fn.args.args else "self"
+
+    def is_view(e: ast.expr) -> bool:
+        while isinstance(e, (ast.Subscript,)):
+            e = e.value
+        return isinstance(e, ast.Attribute) and e.attr in ("factor_matrices", "weights") and isinstance(e.value, ast.Name) and e.value.id == self_name
+
+    # loops over the factor list
+    k = [0]
+
+    class Loops(ast.NodeTransformer):
+        def visit_For(self, node):
+            self.generic_visit(node)
+            it = node.iter
+            elem = idx = None
+            if isinstance(it, ast.Attribute) and it.attr == "factor_matrices" and isinstance(it.value, ast.Name) and it.value.id == self_name \
+                    and isinstance(node.target, ast.Name):
+                elem = node.target.id
+            elif isinstance(it, ast.Call) and isinstance(it.func, ast.Name) and it.func.id == "enumerate" and len(it.args) == 1 \
+                    and isinstance(it.args[0], ast.Attribute) and it.args[0].attr == "factor_matrices" and isinstance(node.target, ast.Tuple) \
+                    and len(node.target.elts) == 2 and all(isinstance(x, ast.Name) for x in node.target.elts):
+                idx, elem = node.target.elts[0].id, node.target.elts[1].id
+            if elem is None:
+                return node
+            if idx is None:
+                k[0] += 1
+                idx = f"_mode{k[0]}"
+            # the element name must not be rebound in the body
+            if any(isinstance(x, ast.Name) and x.id == elem and isinstance(x.ctx, ast.Store) for b in node.body for x in ast.walk(b)):
+                return node
+            ref = ast.Subscript(value=ast.Attribute(value=ast.Name(id=self_name, ctx=ast.Load()), attr="factor_matrices", ctx=ast.Load()),
+                                slice=ast.Name(id=idx, ctx=ast.Load()), ctx=ast.Load())
+
+            class Sub(ast.NodeTransformer):
+                def visit_Name(self, n):
+                    if n.id == elem and isinstance(n.ctx, ast.Load):
+                        return copy.deepcopy(ref)
+                    return n
+            node.body = [Sub().visit(b) for b in node.body]
+            node.target = ast.Name(id=idx, ctx=ast.Store())
+            node.iter = ast.Call(func=ast.Name(id="range", ctx=ast.Load()),
+                                 args=[ast.Attribute(value=ast.Name(id=self_name, ctx=ast.Load()), attr="ndims", ctx=ast.Load())], keywords=[])
+            return ast.fix_missing_locations(node)
+    fn = Loops().visit(fn)
+    # alias locals
+    counts, defs = {}, {}
+    for n in ast.walk(fn):
+        if isinstance(n, ast.Assign):
+            for t in n.targets:
+                for x in ast.walk(t):
+                    if isinstance(x, ast.Name) and isinstance(x.ctx, ast.Store):
+                        counts[x.id] = counts.get(x.id, 0) + 1
+                        if x is t and len(n.targets) == 1:
+                            defs[x.id] = n
+        elif isinstance(n, (ast.AugAssign, ast.AnnAssign)) and isinstance(n.target, ast.Name):
+            counts[n.target.id] = counts.get(n.target.id, 0) + 2
+        elif isinstance(n, (ast.For, ast.comprehension)):
+            for x in ast.walk(n.target):
+                if isinstance(x, ast.Name):
+                    counts[x.id] = counts.get(x.id, 0) + 2
+    aliases = {nm: d.value for nm, d in defs.items() if counts.get(nm) == 1 and is_view(d.value)}
+    if aliases:
+        class Alias(ast.NodeTransformer):
+            def visit_Name(self, n):
+                if n.id in aliases:
+                    e = copy.deepcopy(aliases[n.id])
+                    # keep the context of the outermost node (store / load)
+                    if hasattr(e, "ctx"):
+                        e.ctx = n.ctx
+                    return ast.copy_location(e, n)
+                return n
+
+            def visit_Assign(self, node):
+                if len(node.targets) == 1 and isinstance(node.targets[0], ast.Name) and node.targets[0].id in aliases:
+                    return ast.copy_location(ast.Pass(), node)
+                return self.generic_visit(node)
+        for _ in range(3):
+            fn = Alias().visit(fn)
+    return ast.fix_missing_locations(fn)
